@@ -74,6 +74,11 @@ func storeByName(n string) (storeCfg, bool) {
 	if n == "cdb" {
 		return storesC[0], true
 	}
+	for _, s := range storesLarge {
+		if s.name == n {
+			return s.storeCfg, true
+		}
+	}
 	return storeCfg{}, false
 }
 
@@ -116,7 +121,13 @@ func runReplay(path string) {
 			vlib.Infra("replay: unknown store %q", rp.Store)
 		}
 		c := parseClient(rp.Client)
-		p, err := dnsfix.Compile(dir, st.backend, []byte(rp.Data))
+		data := []byte(rp.Data)
+		if strings.HasSuffix(rp.Store, "-preproc") {
+			if data, err = preprocessText(data); err != nil {
+				vlib.Infra("replay: preprocess: %v", err)
+			}
+		}
+		p, err := dnsfix.Compile(dir, st.backend, data)
 		if err != nil {
 			vlib.Infra("replay: compile: %v", err)
 		}
